@@ -26,39 +26,39 @@ TRUST = ("Trusted base: the harness (plan generator, scheduler, simulated raw de
 
 C = {
     "C06": ("exploration",
-            "Seeded simulated runs: every generated chart is stored on a simulated disk in many variants (section permutation x LF/CRLF x BOM x unknown sections x header subsets covering all 40 names) and read back by path and through several reader kinds while the raw device short-reads, splits CRLF/BOM/multi-byte sequences across reads, raises EINTR or EIO. Oracle: a routing model (header -> key/label/content) plus equality with the canonical variant, one warning per unknown section, ValueError for a missing required section. Sampling over inputs and I/O schedules; not a proof.",
+            "Seeded simulated runs: every generated chart is stored on a simulated disk in many variants (section permutation x LF/CRLF x BOM x unknown sections incl. case variants of the 40 names x header subsets covering all 40 names x file names with braces / per-cent signs / non-ASCII x special files whose stat size is 0) and read back by path and through several reader kinds while the raw device short-reads, splits CRLF/BOM/multi-byte sequences across reads, raises EINTR or EIO; a quarter of the runs read their variants from two concurrent clients in a cold process; faults are injected inside the parse of one section; another chart with other difficulties is parsed first. Oracle: a routing model (header -> key/label/content) plus equality with the canonical variant computed in a forked pristine process, one counted report per unknown section, ValueError for a missing required section; a faulted read may fail, never return wrong data. Sampling over inputs, I/O schedules and interleavings; not a proof. A tenth of every batch each runs under python -O, python -OO and the C locale without UTF-8 mode; 1 run in 7 has debug logging enabled and 1 in 11 treats warnings as errors (references are always computed in the default process state).",
             TRUST + "The header table (40 names -> enum member names) is the harness' own copy of the file format.",
             "deterministic simulation: simulated disk + I/O fault tapes under the real io stack, routing/invariance oracle", "DESIGN.md §4 C06"),
     "C11": ("exploration",
-            "Seeded simulated runs in three parts: (a) client sessions on a shared tempo map that feed returned indices back as hints, judged by a governing-index model; (b) record reorder/dup/drop/move faults on every section of a stored chart with the oracle 'ValueError, or every stored timestamp equals the un-hinted query'; (c) a call-site monitor on every real timestamp_at_tick call during parsing that re-evaluates with lowered hints. Sampling, not enumeration.",
+            "Seeded simulated runs in three parts: (a) client sessions on a shared tempo map (optionally with a second chart of another resolution queried at the same time, after another chart of the same shape was loaded, queried and dropped under in-run allocator shifts, and on maps of 1100-2600 tempo events) that feed returned indices back as hints, judged by a governing-index model; (b) record reorder/dup/drop/move faults on every section of a stored chart with the oracle 'ValueError, or every stored timestamp equals the un-hinted query'; (c) a call-site monitor on every real timestamp_at_tick call during parsing that re-evaluates with lowered hints. Sampling, not enumeration. A tenth of every batch each runs under python -O, python -OO and the C locale without UTF-8 mode; 1 run in 7 has debug logging enabled and 1 in 11 treats warnings as errors (references are always computed in the default process state).",
             TRUST + "The governing-index model (max i with tick_i <= t) is recomputed from the parsed tempo ticks.",
             "deterministic simulation: hint-feedback sessions under the scheduler, record-order storage faults, call-site monitor", "DESIGN.md §4 C11"),
     "C13": ("exploration",
-            "Seeded simulated runs: a stored chart with 2-6 instrument sections is damaged inside the byte range of ONE section (garbage, foreign lines, another section's body, content that makes the section invalid) and parsed by 1-3 clients (concurrent in a quarter of the runs) with selections None/empty/singletons/subsets/supersets/absent pairs. Oracle: keys = headers in file ∩ selection, every undamaged track and all shared data identical to the undamaged unrestricted parse, damaged-and-unselected must not be visible at all. Sampling.",
+            "Seeded simulated runs: a stored chart with 2-6 instrument sections is damaged inside the byte range of ONE section (garbage, foreign lines, another section's body, content that makes the section invalid, descending ticks shared with other sections) and parsed by 1-3 clients (concurrent in a quarter of the runs, cold start) with selections None/empty/singletons/subsets/supersets/absent pairs, from memory, by path (one path per file) and through a short-reading reader; 12 % of the selection objects raise on their k-th access. Oracle: keys = headers in file ∩ selection, every undamaged track and all shared data identical to the undamaged unrestricted parse made in a forked pristine process, the damaged section's own outcome equals its outcome as the only instrument section, naming absent pairs changes nothing, the caller's selection object is not modified. Sampling. A tenth of every batch each runs under python -O, python -OO and the C locale without UTF-8 mode; 1 run in 7 has debug logging enabled and 1 in 11 treats warnings as errors (references are always computed in the default process state).",
             TRUST + "Damage never contains a bare brace or header line (that would legitimately re-frame the file).",
             "deterministic simulation: region-confined storage faults + concurrent selecting clients, fault-containment oracle", "DESIGN.md §4 C13"),
     "C14": ("exploration",
-            "Seeded simulated runs with line-granular storage faults (junk / foreign-line insertion with multiplicity, garbling, moving and deleting unparsable lines) in sync, events and instrument sections. Oracles: locality (events equal those of the undamaged file), conservation at the dispatcher seam (lines in = data out + 'unparsable line' warnings, each junk line reported exactly once), and a schedule seam that re-runs the dispatcher with the kinds in a permuted order and tries every kind on every line seen (<= 1 claimant). The all-strings clause is only monitored on lines that occur in runs; sampling.",
+            "Seeded simulated runs with line-granular storage faults (junk / foreign-line insertion with multiplicity up to floods of 300, garbling, moving and deleting unparsable lines) in sync, events and instrument sections, read from memory or through a short-reading reader, a quarter from two concurrent clients; allocation failures inside recognisers; the first parse of some runs happens with logging switched off. Oracles: locality (events equal those of the undamaged file), conservation at the dispatcher seam (lines in = data out + reports; one COUNTED report per injected unparsable line, never matched by text), a schedule seam that re-runs the dispatcher with the kinds in a permuted order and tries every kind on every line seen (<= 1 claimant), nothing reported against another file after an aborted parse. The all-strings clause is only monitored on lines that occur in runs; sampling. A tenth of every batch each runs under python -O, python -OO and the C locale without UTF-8 mode; 1 run in 7 has debug logging enabled and 1 in 11 treats warnings as errors (references are always computed in the default process state).",
             TRUST + "Strict junk shapes are only those the property texts call unparsable; every other candidate is judged relative to the code's own verdict (warned => must be local).",
             "deterministic simulation: line-granular storage faults, conservation/locality oracles, kind-order permutation at the dispatcher seam", "DESIGN.md §4 C14"),
     "C15": ("fault_enumeration",
-            "For each seeded chart, EVERY single corruption of the sync data at EVERY position is applied, plus ordered PAIRS of such corruptions (all of them up to a per-chart cap, a seeded sample above it) (resolution 0; drop/shift the tick-0 tempo or signature; duplicate tempo k's tick; swap every pair of tempo lines; tempo k -> 0 for each k) and judged by the exact rule of the property (must raise ValueError / must not raise / queries governed by a zero tempo and negative ticks must raise). Exhaustive over (kind x position) per chart; charts are seeded samples.",
+            "For each seeded chart, EVERY single corruption of the sync data at EVERY position is applied, plus ordered PAIRS of such corruptions (all of them up to a per-chart cap, a seeded sample above it) (resolution 0; drop/shift the tick-0 tempo or signature; duplicate tempo k's tick; swap every pair of tempo lines; tempo k -> 0 for each k), and the verdict of every resulting file is computed from the stored bytes by the trust-rule predicate (must raise ValueError / unspecified / may parse / nothing demanded). Around that: a third of the rejected files are retried at once, a quarter are preceded by an acceptable chart that carries the corrupt lines as stray lines, zero-tempo charts are loaded after a healthy chart was queried and dropped (swept over allocator shifts) and queried by two scheduled reader threads, a quarter of the charts are read through a short-reading reader, 4 % have 18-40 tempo events. Exhaustive over (kind x position) per chart for single faults; charts are seeded samples. A tenth of every batch each runs under python -O, python -OO and the C locale without UTF-8 mode; 1 run in 7 has debug logging enabled and 1 in 11 treats warnings as errors (references are always computed in the default process state).",
             TRUST + "The sync trust rule (five rejection conditions + zero-tempo governing rule) is the harness' executable reading of the property.",
             "deterministic simulation: exhaustive single-fault enumeration (plus fault pairs) over seeded charts, trust-rule predicate as exact must-raise oracle", "DESIGN.md §4 C15"),
     "C17": ("exploration",
-            "Flagship. Seeded simulated runs: corpus of 3-8 texts, 1-4 caller threads with histories of parses (incl. failing ones), a deterministic line-level scheduler (geometric / PCT / sequential), and separate fault sub-batches: result-preserving I/O behaviour, EIO, abort at an arbitrary line of an arbitrary parse (cancellation / MemoryError), memo tables cleared at random boundaries. Every completed parse must equal (observation digest, exception, warnings, ==) a single parse of the same text in a process forked from the pristine image; a sample is cross-checked in a fresh interpreter under a random PYTHONHASHSEED. Sampling over histories and schedules; not a proof.",
+            "Flagship. Seeded simulated runs: corpus of 3-8 texts (incl. failing ones, texts with stray and foreign lines, duplicated [Song] fields, eight-digit ticks, occasionally a few-thousand-line chart), 1-4 caller threads with histories of parses, a deterministic line-level (20 %: bytecode-level) scheduler (geometric / PCT / sequential / write- and shared-state-biased), and separate fault sub-batches: result-preserving I/O behaviour, EIO, abort at an arbitrary / targeted / cold line (cancellation, MemoryError, OSError), memo tables + regex cache cleared and a GC pass at random boundaries, long histories under allocator shifts, churn (results dropped while other threads parse), caller-object faults (log handler raises or re-enters the parser, selection sequence raises, reader raises); stored files are replaced in place by same-length texts with the same modification time; callers reuse their selection objects; parses with logging switched off. Every completed parse must equal (observation digest incl. classes and key order, exception, ==, event hashes) a single parse of the same text in a process forked from the pristine image; a faulted parse may fail, never return another chart; samples are cross-checked through a plain in-memory read and in fresh interpreters under random PYTHONHASHSEED and several process environments (locale, UTF-8 mode, dev mode, -O/-OO). Sampling over histories and schedules; not a proof. A tenth of every batch each runs under python -O, python -OO and the C locale without UTF-8 mode; 1 run in 7 has debug logging enabled and 1 in 11 treats warnings as errors (references are always computed in the default process state).",
             TRUST + "Pre-emption granularity is the source line inside chartparse frames; C calls are atomic.",
             "deterministic simulation: baton-passing threads pre-empted at line events, abort/EIO/I-O fault injection, fresh-process reference", "DESIGN.md §4 C17"),
     "C18": ("exploration",
-            "Seeded search over fault sequences on stored chart text (line drop/dup/swap/move/insert, char edits, truncation) and texts assembled from a fragment catalogue, with a closed exception-type oracle and render totality on every returned chart. Sampling, not enumeration: a clean batch is evidence that no undocumented error type escapes, not a proof over all strings.",
+            "Seeded search over fault sequences on stored chart text (line drop/dup/swap/move/insert, floods of 90-513 copies of one line, char edits, truncation, byte-level damage read through a decoding reader) and texts assembled from a fragment catalogue, incl. eight-digit ticks and tracks of 500-1100 notes, with a closed exception-type oracle and render totality on every returned chart; every eighth run is a 420-text history in one process, every eighth races renderers of a cold chart against other readers, every eighth parses (and drops) charts from several threads at once; 6 % of the texts are parsed with a log handler that re-enters the parser. Sampling, not enumeration: a clean batch is evidence that no undocumented error type escapes, not a proof over all strings. A tenth of every batch each runs under python -O, python -OO and the C locale without UTF-8 mode; 1 run in 7 has debug logging enabled and 1 in 11 treats warnings as errors (references are always computed in the default process state).",
             TRUST + "Inputs outside the property's numeric bounds (digit runs > 8, TS exponent >= 64) are discarded and counted.",
             "deterministic simulation: seeded storage-fault sequences, exception-type oracle", "DESIGN.md §4 C18"),
     "C19": ("exploration",
-            "Seeded simulated runs: one shared parsed chart (+ an untouched twin), 1-4 reader threads with histories of read-only operations (subscripting by all instruments, rate queries in every argument form incl. failing ones, tick-to-time queries with legal/illegal hints, rendering, comparison, hashing, derived attributes, assignment attempts) under the line-level scheduler. After every operation: observation unchanged, twin equality both ways, result equals the same operation on a fresh parse, assignment rejected. A third of the concurrent runs are 'cold': the harness does not observe the shared chart before or between operations (so lazily computed attributes are first touched by the racing readers) and judges observation and twin equality once at the end against the untouched twin. Sampling over histories and schedules.",
+            "Seeded simulated runs: one shared parsed chart (+ an untouched twin), 1-4 reader threads with histories of read-only operations (subscripting by all instruments, rate queries in every argument form incl. failing ones, tick-to-time queries with legal/illegal hints, rendering, comparison, hashing, derived attributes, assignment attempts) under the line-level scheduler. After every operation: observation unchanged, twin equality both ways, result equals the same operation on a fresh parse, assignment rejected. A third of the concurrent runs are 'cold': the harness does not observe the shared chart before or between operations (so lazily computed attributes are first touched by the racing readers) and judges observation and twin equality once at the end against the untouched twin. 40 % of the runs keep a second chart with a different track set in the process and direct 30 % of the operations at it; 30 % parse the shared chart with a selection; 20 % inject aborts inside read-only operations; operations include copy / deepcopy / pickle / dataclasses.replace; every result is also compared with the same operation on a fresh parse in a process forked from the pristine image; event hashes of chart and twin must agree. Sampling over histories and schedules. A tenth of every batch each runs under python -O, python -OO and the C locale without UTF-8 mode; 1 run in 7 has debug logging enabled and 1 in 11 treats warnings as errors (references are always computed in the default process state).",
             TRUST + "The sequential model is a fresh parse of the same text by the real parser.",
             "deterministic simulation: concurrent reader histories under a seeded scheduler, immutable-value model", "DESIGN.md §4 C19"),
     "C20": ("exploration",
-            "One fresh interpreter per import history: all first-imports and all ordered pairs of the package's modules exhaustively (ordered triples in the thorough tier), seeded longer permutations, 'import a.b', 'from a.b import *', 'from a import b' and importlib forms, random PYTHONHASHSEED. Oracle: every history succeeds, every import statement hands out the module it names, the history leaves the same public names bound to the same objects as the canonical order, and a smoke parse gives the canonical observation. Exhaustive for histories of length <= 2 (<= 3 thorough); longer ones sampled.",
+            "One fresh interpreter per import history: all first-imports and all ordered pairs of the package's modules exhaustively (ordered triples in the thorough tier), seeded longer permutations, 'import a.b', 'from a.b import *', 'from a import b' and importlib forms, random PYTHONHASHSEED. Oracle: every history succeeds, every import statement hands out the module it names, the history leaves the same public names bound to the same objects as the canonical order, and a smoke parse gives the canonical observation. Fault-injected histories interrupt the first import at a seeded line of the package's module / class bodies and retry it (judged when the interpreter kept the package object). A fifth of the histories run with warnings as errors and nothing compiled yet; environment variables the package source reads are set to odd values in a third; a tenth each run under python -O, -OO and the C locale. Exhaustive for histories of length <= 2 (<= 3 thorough); longer ones sampled.",
             TRUST + "The module list is discovered from chartparse/*.py at run time; concurrent first-imports from two threads are not part of the property.",
             "deterministic simulation: one interpreter per import history (exhaustive short histories, seeded long ones), identity-snapshot oracle", "DESIGN.md §4 C20"),
 }
